@@ -253,6 +253,10 @@ def check(prog, run):
     from .. import typedrule
     typedrule.run_rule(prog, run, "T1", "lang/printer.py", "printing a parsed tree must not raise", ["py_gql.lang.printer"], 60)
 
+    # ---- B1 the dedent applied when the printed block string is read back is ASCII-only (shared with C02.B1)
+    from . import c02
+    c02.check_block_string_classes(prog, run, "B1", prog.get_class(LEXER, "Lexer"))
+
     # ---- P1 purity
     r = run.rule("P1", "no method of ASTPrinter or helper of printer.py writes module/class state or iterates a set", 30)
     for f in fns:
